@@ -331,7 +331,8 @@ func (node *TopNode) resolveMerge(binding *syntax.MergeExp, t syntax.Type,
 	} else {
 		forkRefId = binding.Call.GetFqid()
 	}
-	parts, errs := node.getParts(binding.GetCall(), fork, forkRefId)
+	parts, errs := node.getParts(binding.GetCall(), fork, forkRefId,
+		mergeValueForks(binding.Value, binding.GetCall()))
 	if err := errs.If(); err != nil {
 		util.PrintError(err, "runtime",
 			"Resolving parts for %s.  This will likely result in further errors.",
@@ -439,11 +440,72 @@ func (node *TopNode) resolveMerge(binding *syntax.MergeExp, t syntax.Type,
 	panic("invalid mapping mode")
 }
 
+// mergeValueForks returns the indices, for calls other than src, which the
+// references in a merged value have already been fixed to.
+//
+// When a map call over a collection of known size is merged, the merge is
+// expanded into one expression per element, and the element's index is
+// recorded in the references rather than in the fork ID of the consumer.
+// If a nested map call has a different size in each of those elements, only
+// the forks of the element in question must be merged.
+func mergeValueForks(exp syntax.Exp,
+	src *syntax.CallStm) map[*syntax.CallStm]syntax.CollectionIndex {
+	if exp == nil {
+		return nil
+	}
+	var result map[*syntax.CallStm]syntax.CollectionIndex
+	var conflicts map[*syntax.CallStm]struct{}
+	for _, ref := range exp.FindRefs() {
+		for call, idx := range ref.Forks {
+			if call == src || idx == nil || idx.IndexSource() != nil {
+				continue
+			}
+			if m := idx.Mode(); m != syntax.ModeArrayCall && m != syntax.ModeMapCall {
+				continue
+			}
+			if _, ok := conflicts[call]; ok {
+				continue
+			}
+			if prev, ok := result[call]; !ok {
+				if result == nil {
+					result = make(map[*syntax.CallStm]syntax.CollectionIndex)
+				}
+				result[call] = idx
+			} else if !indexEqual(prev, idx) {
+				delete(result, call)
+				if conflicts == nil {
+					conflicts = make(map[*syntax.CallStm]struct{})
+				}
+				conflicts[call] = struct{}{}
+			}
+		}
+	}
+	return result
+}
+
+// matchesIndices returns false if any resolved part of the fork ID has a
+// different index than the one given for its call.
+func (f ForkId) matchesIndices(ref map[*syntax.CallStm]syntax.CollectionIndex) bool {
+	if len(ref) == 0 {
+		return true
+	}
+	for _, part := range f {
+		if idx, ok := ref[part.Split.Call]; ok &&
+			part.Id.IndexSource() == nil &&
+			!indexEqual(part.Id, idx) {
+			return false
+		}
+	}
+	return true
+}
+
 // getParts returns the ForkSourcePart corresponding the the given call for
-// every fork of the given node which matches the given fork ID.
+// every fork of the given node which matches the given fork ID, and the
+// indices which the merged references are already fixed to, if any.
 func (node *TopNode) getParts(src *syntax.CallStm,
 	forkId ForkId,
-	id string) ([]*ForkSourcePart, syntax.ErrorList) {
+	id string,
+	refForks map[*syntax.CallStm]syntax.CollectionIndex) ([]*ForkSourcePart, syntax.ErrorList) {
 	boundNode := node.allNodes[id]
 	if boundNode == nil {
 		panic("unknown bound node - this should not be possible in properly-compiled code")
@@ -470,7 +532,8 @@ func (node *TopNode) getParts(src *syntax.CallStm,
 					element: "unmatched call " + src.GoString(),
 					inner:   err,
 				})
-			} else if fork.forkId.Matches(forkId) {
+			} else if fork.forkId.Matches(forkId) &&
+				fork.forkId.matchesIndices(refForks) {
 				var k partKey
 				if p.Id.IndexSource() != nil {
 					k.part = p
